@@ -223,6 +223,11 @@ class R:
     def reply_handler_src(self, h):
         p = self.p
         M, Q = cm(p), cq(p)
+        if h.get("legacy"):
+            return ["#[sv::msg(reply)]",
+                    f"fn {h['name']}(&self, ctx: {self.sv}::types::ReplyCtx<{Q}>, reply: Reply) -> Result<Response<{M}>, {p['error']}> {{",
+                    f"    echo_mut(\"{h['hid']}\", ctx.deps, &ctx.env, None, None, vec![(\"reply\", svmon::serde_json::to_string(&reply).unwrap())])",
+                    "}"]
         extra = ""
         if h.get("handlers"):
             extra += ", handlers=[" + ", ".join(h["handlers"]) + "]"
@@ -263,9 +268,35 @@ class R:
             "use svmon::prelude::*;",
         ]
 
+    def override_src(self):
+        """User-written entry points named by sv::override_entry_point: echo functions too."""
+        p = self.p
+        sv = self.sv
+        M, Q = cm(p), cq(p)
+        E = p["error"]
+        out = []
+        for ov in p.get("overrides", []):
+            k, fn = ov["kind"], ov["fn"]
+            hid = f"ov.{k}.{fn}"
+            if k == "query":
+                out += [f"pub fn {fn}(deps: {sv}::cw_std::Deps<{Q}>, env: {sv}::cw_std::Env, msg: svmon::OvMsg) -> Result<Binary, {E}> {{",
+                        f"    let v: u32 = echo_query::<_, u32, {E}>(\"{hid}\", deps, &env, vec![(\"tag\", j(&msg.tag))])?;",
+                        f"    Ok({sv}::cw_std::to_json_binary(&v)?)", "}"]
+            elif k in ("instantiate", "exec"):
+                out += [f"pub fn {fn}(deps: {sv}::cw_std::DepsMut<{Q}>, env: {sv}::cw_std::Env, info: {sv}::cw_std::MessageInfo, msg: svmon::OvMsg) -> Result<Response<{M}>, {E}> {{",
+                        f"    echo_mut(\"{hid}\", deps, &env, Some(&info), None, vec![(\"tag\", j(&msg.tag))])", "}"]
+            elif k == "reply":
+                out += [f"pub fn {fn}(deps: {sv}::cw_std::DepsMut<{Q}>, env: {sv}::cw_std::Env, msg: Reply) -> Result<Response<{M}>, {E}> {{",
+                        f"    echo_mut(\"{hid}\", deps, &env, None, None, vec![(\"id\", j(&msg.id))])", "}"]
+            else:
+                out += [f"pub fn {fn}(deps: {sv}::cw_std::DepsMut<{Q}>, env: {sv}::cw_std::Env, msg: svmon::OvMsg) -> Result<Response<{M}>, {E}> {{",
+                        f"    echo_mut(\"{hid}\", deps, &env, None, None, vec![(\"tag\", j(&msg.tag))])", "}"]
+        return out
+
     def source(self, with_glue=True):
         lines = self.prelude()
         lines += self.p.get("pre_items", [])
+        lines += self.override_src()
         for part in self.p["parts"][1:]:
             lines += self.iface_src(part)
         lines += self.contract_src()
